@@ -135,17 +135,24 @@ func bucket(n int) string {
 // one executes and judges one history; it returns the outcome for the search.
 func (rn *runner) one(c Case) outcome {
 	r := rn.r
-	o := execute(c)
+	var o outcome
+	hist := fmt.Sprint(c.Ops)
+	if c.MP != nil || strings.HasPrefix(c.Profile, "multipage") {
+		o = executeMP(c)
+		hist = fmt.Sprint(c.MP)
+	} else {
+		o = execute(c)
+	}
 	r.Eval(1)
 	r.Trace(1)
 	if o.infra != "" {
-		r.Infra(o.infra + " " + fmt.Sprint(c.Ops))
+		r.Infra(o.infra + " " + hist)
 		return o
 	}
 	if len(o.fails) > 0 {
 		for _, f := range o.fails {
 			r.Outcome("fail:" + f.fp)
-			r.Violation(f.fp, f.what+"  history: "+fmt.Sprint(c.Ops), c)
+			r.Violation(f.fp, f.what+"  history: "+hist, c)
 		}
 		return o
 	}
@@ -411,7 +418,7 @@ func Run(tier string) int {
 	}
 	r := ev.New("C16", tier, "model_checking", budget)
 	rn := &runner{r: r}
-	r.Rule("a case is a history of page tree operations (appends through both APIs, macro appends, NewRange, range Close, NextPageNumber) followed by the root Close, pdf.Writer.Close and a read-back; every history up to the bound is executed on the real writer and judged against the list-of-pages model; states = distinct (reference model state, writer heap dump with references abstracted) pairs; distinct non-trivial = states with at least one range or at least two levels of /Pages nodes")
+	r.Rule("a case is a history of page tree operations (appends through both APIs, macro appends, NewRange, range Close, NextPageNumber) followed by the root Close, pdf.Writer.Close and a read-back; every history up to the bound is executed on the real writer and judged against the list-of-pages model; states = distinct (reference model state, writer heap dump with references abstracted) pairs; distinct non-trivial = states with at least one range or at least two levels of /Pages nodes; multipage profiles: a case is a history of document.MultiPage operations (AddPage, SetPageSize, content, Page.Close, fill macros) followed by the Close of the open pages, MultiPage.Close and the same read-back; every history up to the bound is executed and extended (no merging: pointer sharing between pages is not in the key), states there are only counted")
 	r.Assume("raw /Pages nodes are read through pdf.Reader.Get (the file layer is C02/C04's subject); the walk, inheritance and comparison are the harness's own",
 		"state merging: equal keys mean equal writer heap (tails, children, queued objects, futureInt/callback graph) up to renaming of references and equal model; pdf.Writer and ResourceManager are treated as an allocation counter plus write-once map",
 		"GetPage is called for every index up to 64 pages, beyond that for indices within 2 of a multiple of 16 and the last 3")
@@ -427,6 +434,19 @@ func Run(tier string) int {
 	only := os.Getenv("VERIF_C16_PROFILE")
 	rep := map[string]any{}
 	var names []string
+	// the multipage profiles are small; they run first so that a deadline hit
+	// on a loaded machine cannot cut them
+	for _, p := range mpProfiles(r.Thorough()) {
+		if only != "" && only != p.Name {
+			continue
+		}
+		if r.Expired() {
+			r.Capped("deadline reached before profile " + p.Name)
+			break
+		}
+		rep[p.Name] = rn.searchMP(p)
+		names = append(names, p.Name)
+	}
 	for _, p := range profiles(r) {
 		if only != "" && only != p.Name {
 			continue
@@ -444,6 +464,9 @@ func Run(tier string) int {
 	}
 	r.Dim("profiles", rep)
 	r.Dim("attribute_alphabet", map[string]int{"MediaBox": 3, "CropBox": 2, "Rotate": 3, "Resources": 3, "api": 2})
+	r.Dim("multipage_alphabet", map[string]any{"default_page_size": "A4 (one *pdf.Rectangle shared by all pages of the document)",
+		"SetPageSize": []string{"Letter", "A5"}, "rectangle_pointers": "one per size and execution, shared by all SetPageSize calls, never modified by the harness",
+		"content": "Rectangle+Fill, at most once per page, before or after SetPageSize", "document_order": "order of the Page.Close calls"})
 	r.Dim("max_levels_of_pages_nodes", rn.maxDepth.Load())
 	r.Dim("max_pages_in_a_document", rn.maxPages.Load())
 	return r.Finish()
@@ -460,6 +483,10 @@ func Replay(path string) int {
 	r.SetReplayMode()
 	rn := &runner{r: r}
 	o := rn.one(c)
-	fmt.Printf("history %v: pages=%d levels=%d failures=%d\n", c.Ops, o.pages, o.treeDepth, len(o.fails))
+	if c.MP != nil {
+		fmt.Printf("multipage history %v: pages=%d levels=%d failures=%d\n", c.MP, o.pages, o.treeDepth, len(o.fails))
+	} else {
+		fmt.Printf("history %v: pages=%d levels=%d failures=%d\n", c.Ops, o.pages, o.treeDepth, len(o.fails))
+	}
 	return r.Finish()
 }
